@@ -55,7 +55,7 @@ def cluster_view(sim):
 
 
 class Monitors(Listener):
-    def __init__(self, props=None, feasible=None, bound=None):
+    def __init__(self, props=None, feasible=None, bound=None, simpy_order=True):
         self.props = set(props) if props else None
         self.v = []                       # violations
         self.active = {}                  # machine id -> set(task ids) with a live do_work
@@ -68,6 +68,10 @@ class Monitors(Listener):
         self.reservation_sizes = {}       # obs -> size at creation
         self.ingested_so_far = {}         # obs -> total_data_size after the previous block
         self.ingest_hold = {}             # obs -> when its ingest machines were taken / given back
+        self.sched_delayed_seen = False
+        self._instant = None
+        self._truth_instant = None
+        self.simpy_order = simpy_order    # False: blocks of an instant run in an arbitrary order (stand-in env)
         self.rowcheck = 0
         self.blocks = 0
         self.tier_moves = 0
@@ -168,6 +172,8 @@ class Monitors(Listener):
     # ---------------------------------------------------------------- blocks
     def on_begin(self, pid, info):
         self.blocks += 1
+        if self.want("C12"):
+            self.note_instant_start()
         k = info["kind"]
         sim = self.sim
         if k == "alloctask" and info["blocks"] == 0:
@@ -348,7 +354,7 @@ class Monitors(Listener):
                     self.viol("C01", "free-machine-hosts-body", "%s: %s" % (m, self.active[m]))
         # C08: ingest holds the pipeline's machine demand for the observation's duration (pool membership, by
         # event time: from the provisioning block to the block that gives the machines back)
-        if self.want("C08"):
+        if self.want("C08") and self.simpy_order:
             now_t = F(sim.env.now)
             held = {}
             for t in cv["running"]:
@@ -464,6 +470,13 @@ class Monitors(Listener):
                     if got_p != want_p or got_s != want_s:
                         self.viol("C14", "plan-query-differs-from-graph",
                                   "%s: predecessors %s (graph %s), successors %s (graph %s)" % (t.id, got_p, want_p, got_s, want_s))
+        # C15: the scheduler's DELAYED report is never taken back
+        if self.want("C15"):
+            st_ = str(getattr(sim.scheduler.schedule_status, "value", sim.scheduler.schedule_status))
+            if st_ == "DELAYED":
+                self.sched_delayed_seen = True
+            elif self.sched_delayed_seen:
+                self.viol("C15", "delayed-report-taken-back", "schedule_status is %s after it had been DELAYED" % st_)
         # C19 queries
         if self.want("C19"):
             truth_cluster = (not cv["running"]) and (not cv["occupied"]) and (not cv["ingest"])
@@ -507,6 +520,16 @@ class Monitors(Listener):
             "scheduler_observation_queue": len(sim.scheduler.observation_queue),
         }
 
+    def note_instant_start(self):
+        """called at the beginning of every block: remember the state in which a new instant began"""
+        now = self.sim.env.now
+        if now != self._instant:
+            self._instant = now
+            try:
+                self._truth_instant = self.true_row()
+            except Exception:   # noqa
+                self._truth_instant = None
+
     def check_row_pre(self):
         self._truth = self.true_row()
         self._nrows = len(self.sim.monitor.df)
@@ -524,6 +547,14 @@ class Monitors(Listener):
             got = fr(row[c])
             if got != want:
                 self.viol("C12", "row-misreports-" + c, "t=%s reported %s true %s" % (fr(now), got, want))
+        # ... and that state is the one in which the timestep BEGAN (only task bodies may run before the monitor,
+        # and they do not touch what the row reports)
+        if self.simpy_order and self._truth_instant is not None and self._instant == now:
+            for c, want in self._truth_instant.items():
+                got = fr(row[c])
+                if got != want:
+                    self.viol("C12", "row-not-begin-of-step-" + c,
+                              "t=%s reported %s, at the beginning of the step it was %s" % (fr(now), got, want))
         self.rowcheck += 1
 
     # ------------------------------------------------------------ final checks
@@ -567,6 +598,24 @@ class Monitors(Listener):
                     self.viol("C06", "span-not-runtime", "%s aft-ast=%s runtime(with delay)=%s" % (tid, span, total))
                 if total > dur and not t.delay_flag:
                     self.viol("C15", "delay-not-flagged", "%s %s -> %s" % (tid, dur, total))
+        # C01 on the task records: the recorded [ast, aft) intervals of the tasks that ran on one machine
+        # never overlap
+        if self.want("C01") and self.simpy_order:      # (release timing inside an instant depends on the order)
+            per = {}
+            for tid, t in tasks.items():
+                if t.aft == -1 or t.ast == -1 or tid not in self.alloc:
+                    continue
+                per.setdefault(self.alloc[tid][1], []).append((F(t.ast), F(t.aft), tid))
+            for mid_, iv in per.items():
+                iv.sort()
+                for (a1, f1, t1), (a2, f2, t2) in zip(iv, iv[1:]):
+                    if a2 < f1:
+                        # K6 predicate: the earlier task ran 3 or more steps and the next one starts exactly
+                        # one step before its recorded finish (the machine was given back one step early)
+                        k6 = (f1 - a1 >= 3) and (0 < f1 - a2 <= 1)
+                        self.viol("C01", "recorded-intervals-overlap",
+                                  "machine %s: %s [%s,%s) and %s [%s,%s)" % (mid_, t1, a1, f1, t2, a2, f2),
+                                  sig="recorded-intervals-overlap" + (":at-most-one-step:after-task>=3" if k6 else ""))
         # C03 precedence -----------------------------------------------------
         for o in tel.observations:
             if o.plan is None or o.plan.graph is None:
